@@ -27,7 +27,7 @@ Definition tcp_event (s : bytes) : conn_event :=
   match split_on 58 s [] with
   | ty :: rest :: _ =>
       let k := num_of ty 0 in
-      if (k =? 3) || (k =? 8) then Refused
+      if (k =? 3) || (k =? 8) || (k =? 12) then Refused
       else Delivered (seg_bytes rest) (negb ((k =? 2) || (k =? 7)))
   | _ => Delivered [] true
   end.
